@@ -391,6 +391,119 @@ Corollary pages_v1_shred : forall (V : Type) (sh : shape) (rows : list (row V)) 
 Proof.
   intros V sh rows pages W Hs Al Gd.
   apply (pages_v1_spec V sh (fst (shred sh rows)) (snd (shred sh rows))); try assumption.
-  - apply assemble_shred. exact W.
-  - rewrite Hs. destruct (shred sh rows); reflexivity.
+  apply assemble_shred. exact W.
 Qed.
+
+(* ---------- v2 data pages: read_data_page_v2's call shape (slice of num_rows slots, prev_i = 0) ----------
+   A v2 page starts at a row boundary and announces its number of rows (parquet.thrift
+   DataPageHeaderV2.num_rows), so every page is an accepted stream of its own. *)
+Section V2.
+Variable V : Type.
+Variable sh : shape.
+
+Lemma asm_count : forall es cur (vs : list V) out,
+  asm sh cur es vs = Some out -> length vs = count_md (max_def sh) es.
+Proof.
+  pose proof (max_def_gt sh) as G.
+  induction es as [|[r d] t IH]; intros cur vs out H; cbn [asm] in H.
+  - destruct vs; [reflexivity|discriminate].
+  - cbn [count_md]. destruct (r =? 0).
+    + destruct (open_row sh d vs) as [[c vs']|] eqn:Eo; [|discriminate].
+      destruct (asm sh c t vs') as [o|] eqn:E; [|discriminate].
+      apply IH in E. unfold open_row in Eo.
+      destruct (d <? d_empty sh) eqn:E1.
+      { apply N.ltb_lt in E1. assert ((d =? max_def sh) = false) as -> by (apply N.eqb_neq; lia).
+        injection Eo as <- <-. exact E. }
+      destruct (d =? d_empty sh) eqn:E2.
+      { apply N.eqb_eq in E2. assert ((d =? max_def sh) = false) as -> by (apply N.eqb_neq; lia).
+        injection Eo as <- <-. exact E. }
+      destruct (d =? max_def sh).
+      { destruct vs as [|v vs0]; [discriminate|]. injection Eo as <- <-. cbn [length]. rewrite E. reflexivity. }
+      destruct (d <? max_def sh); [|discriminate]. injection Eo as <- <-. exact E.
+    + destruct (r =? 1); [|discriminate].
+      destruct (cont_row sh cur d vs) as [[c vs']|] eqn:Ec; [|discriminate].
+      apply IH in H. unfold cont_row in Ec. destruct cur as [[|e l]|]; try discriminate.
+      destruct (d =? max_def sh).
+      { destruct vs as [|v vs0]; [discriminate|]. injection Ec as <- <-. cbn [length]. rewrite H. reflexivity. }
+      destruct ((d_empty sh <? d) && (d <? max_def sh)); [|discriminate]. injection Ec as <- <-. exact H.
+Qed.
+
+Lemma spec_count : forall es (vs : list V) rows,
+  assemble_spec sh es vs = Some rows -> length vs = count_md (max_def sh) es.
+Proof.
+  pose proof (max_def_gt sh) as G.
+  intros es vs rows H. destruct es as [|[r d] t]; cbn [assemble_spec] in H.
+  - destruct vs; [reflexivity|discriminate].
+  - cbn [count_md]. destruct (r =? 0); [|discriminate].
+    destruct (open_row sh d vs) as [[c vs']|] eqn:Eo; [|discriminate].
+    apply asm_count in H. unfold open_row in Eo.
+    destruct (d <? d_empty sh) eqn:E1.
+    { apply N.ltb_lt in E1. assert ((d =? max_def sh) = false) as -> by (apply N.eqb_neq; lia).
+      injection Eo as <- <-. exact H. }
+    destruct (d =? d_empty sh) eqn:E2.
+    { apply N.eqb_eq in E2. assert ((d =? max_def sh) = false) as -> by (apply N.eqb_neq; lia).
+      injection Eo as <- <-. exact H. }
+    destruct (d =? max_def sh).
+    { destruct vs as [|v vs0]; [discriminate|]. injection Eo as <- <-. cbn [length]. rewrite H. reflexivity. }
+    destruct (d <? max_def sh); [|discriminate]. injection Eo as <- <-. exact H.
+Qed.
+
+(* one page that is an accepted stream, assembled into a fresh slice *)
+Lemma single_page : forall es (vs : list V) rows, es <> [] ->
+  assemble_spec sh es vs = Some rows ->
+  exists i, assemble_page (row_opt sh) (max_def sh) (empty_arr (length rows)) 0 (es, vs) = AOk (rows, i).
+Proof.
+  intros es vs rows Ne H.
+  assert (R : run_v1 sh (length rows) [(es, vs)] = AOk rows).
+  { apply (pages_v1_spec V sh es vs rows [(es, vs)] H).
+    - unfold pages_stream. cbn. rewrite !app_nil_r. reflexivity.
+    - cbn [pages_aligned forallb]. unfold page_aligned. cbn [fst snd].
+      rewrite (spec_count _ _ _ H). rewrite Nat.eqb_refl. reflexivity.
+    - cbn [good_split]. unfold good_page. cbn [fst]. destruct es as [|[r d] t]; [contradiction|].
+      cbn [assemble_spec] in H. destruct (r =? 0); [reflexivity|discriminate]. }
+  unfold run_v1 in R. rewrite call_null_shape, sch_max_def_shape in R. cbn [read_col_v1] in R.
+  destruct (assemble_page _ _ _ _ _) as [[a' i]|x]; [|discriminate].
+  injection R as ->. eauto.
+Qed.
+
+Lemma skipn_len_app : forall {A} (l r : list A) n, skipn (length l + n) (l ++ r) = skipn n r.
+Proof. induction l as [|h l IH]; intros; [reflexivity|]. cbn. apply IH. Qed.
+Lemma firstn_len_app : forall {A} (l r : list A), firstn (length l) (l ++ r) = l.
+Proof. induction l as [|h l IH]; intros; [reflexivity|]. cbn. rewrite IH. reflexivity. Qed.
+Lemma firstn_repeat_add : forall {A} (x : A) n k, firstn n (repeat x (n + k)) = repeat x n.
+Proof. induction n as [|n IH]; intros; [reflexivity|]. cbn. rewrite IH. reflexivity. Qed.
+Lemma skipn_repeat_add : forall {A} (x : A) n k, skipn n (repeat x (n + k)) = repeat x k.
+Proof. induction n as [|n IH]; intros; [reflexivity|]. cbn. apply IH. Qed.
+
+Definition v2_page_ok (pg : page V * nat) (rs : list (row V)) : Prop :=
+  fst (fst pg) <> [] /\ assemble_spec sh (fst (fst pg)) (snd (fst pg)) = Some rs /\ snd pg = length rs.
+
+Lemma read_col_v2_inv : forall pages rowss, Forall2 v2_page_ok pages rowss ->
+  forall done : arr V,
+  read_col_v2 (row_opt sh) (max_def sh) (done ++ repeat None (length (concat rowss))) (length done) pages
+  = AOk (done ++ concat rowss).
+Proof.
+  induction 1 as [|pg rs pages rowss Hp HF IH]; intros done.
+  - cbn. reflexivity.
+  - destruct pg as [[es vs] nr]. destruct Hp as (Ne & Ha & Hn). cbn [fst snd] in *. subst nr.
+    cbn [read_col_v2 concat]. rewrite app_length.
+    pose proof (skipn_len_app done (repeat None (length rs + length (concat rowss))) 0) as S0.
+    rewrite Nat.add_0_r in S0. cbn [skipn] in S0. rewrite S0.
+    rewrite firstn_repeat_add.
+    destruct (single_page es vs rs Ne Ha) as [i E]. unfold empty_arr in E.
+    match goal with |- context [assemble_page ?a ?b ?c ?d ?e] =>
+      replace (assemble_page a b c d e) with (AOk (A:=arr V * nat) (rs, i)) by (symmetry; exact E) end.
+    rewrite firstn_len_app, skipn_len_app, skipn_repeat_add.
+    rewrite (app_assoc done rs). rewrite <- (app_length done rs).
+    rewrite IH. rewrite <- app_assoc. reflexivity.
+Qed.
+
+Theorem pages_v2_spec : forall (pages : list (page V * nat)) (rowss : list (list (row V))),
+  Forall2 v2_page_ok pages rowss ->
+  run_v2 false sh (length (concat rowss)) pages = AOk (concat rowss).
+Proof.
+  intros pages rowss H. unfold run_v2. rewrite call_null_shape, sch_max_def_shape.
+  exact (read_col_v2_inv pages rowss H []).
+Qed.
+
+End V2.
